@@ -18,6 +18,7 @@ CLAUSE = CLAUSE + (" An unchecked decode result is not handed to another functio
                    "parameter for `< 0` before every other use (parse_mip_page's code).")
 CLAUSE = CLAUSE + (" No decode-failure edge leaves an inner table loop of packet.c into the enclosing loop (cursor and index "
                    "would lose their lock step).")
+CLAUSE = CLAUSE + (" No decoder call's result is discarded (in-place vbi_unpar included).")
 NOT_DECIDED = ("that a single-bit error is corrected to the sent value (Hamming arithmetic, test-hamm's domain); display of the "
                "formatted page; X/26 designation continuity semantics beyond the error edge.")
 
@@ -67,6 +68,12 @@ def run(ctx, run):
                           "test it: the damaged packet is processed as if it carried that value: %s"
                           % (ex.pretty(f, call)[:80], f.exprs[call].get("callee"), a.describe(t)[:200]), ex.loc(f, call),
                           witness={"function": f.name, "call": ex.pretty(f, call), "argument": k})
+        for call in neg.discarded_results(a):
+            bad = True
+            run.violation("RF-NEG", "RF-NEG:%s:discarded:%s" % (f.name, f.exprs[call].get("callee")),
+                          "`%s` throws the decoder's verdict away: the bytes are stripped of their parity bit whether or not the "
+                          "parity was right, so a damaged character replaces the good one as a different character"
+                          % ex.pretty(f, call)[:60], ex.loc(f, call))
         for eid, name in neg.unexamined(a):
             bad = True
             run.violation("RF-NEG", "RF-NEG:%s:unexamined:%s" % (f.name, name), "the value decoded by `%s` can reach a successful "
